@@ -361,7 +361,7 @@ HeaderShapes == {[With(Base, f) EXCEPT !.meta = mv, !.ctype = cv, !.md5 = d] :
                    f \in {HGet, HPut, PGet, PPut}, mv \in MetaVals, cv \in CtypeVals, d \in BOOLEAN}
 
 PayloadShapes == {With(Base, f) : f \in AllFlavours}
-                 \cup {[With(Base, f) EXCEPT !.key = <<"a", "sp", "slash", "ea">>, !.query = <<Pair(<<"a">>, <<"sp">>)>>,
+                 \cup {[With(Base, f) EXCEPT !.key = <<"a", "sp", "plus", "star", "slash", "ea">>, !.query = <<Pair(<<"a">>, <<"sp">>)>>,
                                              !.meta = One("x")] : f \in AllFlavours}
 
 Skews == {"now", "past_in", "past_out", "future_in", "future_out"}
